@@ -132,7 +132,10 @@ Creds == {NoCred} \cup {Cred("cookie", "good", u, fs) : u \in Users, fs \in Cook
          \* typed_other: HTTP Basic with the name capitalised and the password of the backend's OTHER account of that spelling
          \cup {Cred("basic", v, u, {}) : v \in {"ok", "badpw", "typed_other"}, u \in {"alice", "root"}}
          \cup {Cred("kmcert", v, u, {}) : v \in {"good", "denied", "adminca"}, u \in {"alice", "root"}}
-         \cup {Cred("ipcert", v, "svc", {}) : v \in {"inside", "outside", "outside_near", "loopback_xff"}}
+         \cup {Cred("ipcert", v, "svc", {}) : v \in {"inside", "outside", "outside_near", "loopback_xff", "inside_othercookie"}}
+         \* *_othercookie: a good certificate and, riding along, the good password session of ANOTHER user (bob): two
+         \* credentials that name different people establish no identity at all (not Valid)
+         \cup {Cred("kmcert", "good_othercookie", "alice", {})}
 \* operations without a target parameter
 Untargeted == {"vipotp", "rolerefresh", "totpgen", "authorize", "showtoken", "clisend", "u2fsignreq", "webauthnbegin", "vippushstart"}
 \* target: the actor itself, another ordinary user, or another user who is an ADMINISTRATOR (the rights that count are
@@ -146,6 +149,9 @@ InC06(p) == \E o \in Ops, c \in Creds, t \in {"self", "other", "otheradmin"}, m 
                /\ (o.effect = "cookie" => og # "cross")
                /\ (c.user \in LookalikeAdmins => (t = "other" /\ og = "none"))
                /\ (o.name \in Untargeted => t = "self")
+               \* where the endpoint does not take the certificate the cookie alone is the credential (and a good one)
+               /\ (c.var = "inside_othercookie" => o.accepts \in {"any", "ipcert"})
+               /\ (c.var = "good_othercookie" => o.accepts \in {"any", "adm"})
                /\ p = [op |-> o.name, cred |-> c, target |-> t, method |-> m, origin |-> og, webui |-> wu]
 
 \* ------------------------------------------------------------------ behaviour (design check)
